@@ -27,7 +27,7 @@ REQUIRED_MONITORS = ["float.orthonormal", "float.scale", "float.homomorphism", "
 META = {
     "level_text": "Exploration: the real kernel functions are executed on seeded hostile float inputs and, in exact mode, on Fraction-valued object arrays where every identity is decided with == (no tolerance); derivatives are obtained by executing the real map on dual numbers over Fraction. Held on the samples generated; not a symbolic proof.",
     "level_note": "sampled inputs only (Schwartz-Zippel argument for the rational identities); float mode limited to |P| in [1e-100,1e100]; module constants re-bound to exact integer arrays in exact mode.",
-    "technique": "runtime return-value monitors; execution of the real code in exact rational / dual-number arithmetic",
+    "technique": "runtime return-value monitors; execution of the real code in exact rational / dual-number arithmetic + representation twins",
 }
 
 KINDS = ["float", "float", "exact", "algebra"]
